@@ -38,6 +38,10 @@ theorem source_enumerate_dispatch :
 theorem source_indent (len : Int) : indentWidth defaultIndent len = 3 * (len - 1) := by
   unfold indentWidth defaultIndent; omega
 
+/-- for EVERY value of the `indent` argument: `indent` spaces per level below the root (the root is not indented) -/
+theorem source_indent_any (indent len : Int) : indentWidth indent len = indent * (len - 1) := by
+  unfold indentWidth; rfl
+
 theorem source_line_templates :
     lineTemplates = [["{spaces}", "{model.__class__.__name__}"],
       ["{spaces}", "{model.__class__.__name__}", "(", "{v}", ")"]] ∧ colJoin = "','.join(map(str, vs))" := ⟨rfl, rfl⟩
